@@ -30,14 +30,43 @@ def mark(mk: int) -> str:
     return f"Q{mk}Q"
 
 
+# (round 2) a function item may carry  calls = [spelling | (form, spelling)]  with form in CALL_FORMS, and
+# opts = {"body": "marker" | "empty" | "comment" | "nested", "deco": None | "@private" | "@root" | "@add(<target>)"}:
+# bodies that compile to ZERO commands (a saved function must still be stored: its file, the duplicate check and the call that
+# @add generates depend on it) and every saved decorator.  Such a function has no marker text; it is recognised by its
+# file name, which the generators make unique (`E<marker>`).
+CALL_FORMS = {
+    "call": "{t}();",
+    "sched": "schedule function {t}() 5t;",
+    "exec": "execute as @a at @s run {t}();",
+    "with": "{t}() with {{x: 1}};",
+}
+
+
+def call_text(c) -> str:
+    form, t = ("call", c) if isinstance(c, str) else c
+    return CALL_FORMS[form].format(t=t)
+
+
+def func_opts(it) -> dict:
+    return it[5] if len(it) > 5 and it[5] else {}
+
+
 def render(items, indent="") -> str:
     out = []
     for it in items:
         k = it[0]
         if k == "func":
+            opts = func_opts(it)
             inner = render(it[3], indent + "    ")
-            calls = "".join(f"{indent}    {c}();\n" for c in (it[4] if len(it) > 4 else []))
-            out.append(f'{indent}function {it[1]}() {{\n{indent}    say "{mark(it[2])}";\n{calls}{inner}{indent}}}')
+            calls = "".join(f"{indent}    {call_text(c)}\n" for c in (it[4] if len(it) > 4 else []))
+            body = opts.get("body", "marker")
+            first = {"marker": f'{indent}    say "{mark(it[2])}";\n', "comment": f"{indent}    // nothing to do here\n"}.get(body, "")
+            deco = (opts.get("deco") + " ") if opts.get("deco") else ""
+            if body == "empty" and not inner and not calls:
+                out.append(f"{indent}{deco}function {it[1]}() {{}}")
+            else:
+                out.append(f"{indent}{deco}function {it[1]}() {{\n{first}{calls}{inner}{indent}}}")
         elif k == "class":
             out.append(f"{indent}class {it[1]} {{\n{render(it[2], indent + '    ')}{indent}}}")
         elif k == "new":
@@ -69,7 +98,10 @@ def markers_of(items, acc=None):
     for it in items:
         k = it[0]
         if k == "func":
-            acc[it[2]] = ("text", mark(it[2]))
+            if func_opts(it).get("body", "marker") == "marker":
+                acc[it[2]] = ("text", mark(it[2]))
+            else:
+                acc[it[2]] = ("file", "/" + it[1].split(".")[-1].lower() + ".mcfunction")
             markers_of(it[3], acc)
         elif k == "class":
             markers_of(it[2], acc)
@@ -370,6 +402,10 @@ def found_markers(prog, res):
     for mk, (kind, text) in markers_of(prog).items():
         for path, content in res["files"].items():
             if kind == "json" and not path.endswith(".json"):
+                continue
+            if kind == "file":
+                if path.endswith(text):
+                    out.append((mk, path))
                 continue
             for _ in range(content.count(text)):
                 out.append((mk, path))
